@@ -35,6 +35,12 @@ func (w *c19walk) sym(e ast.Expr) string {
 	if t == w.recv+".path" {
 		return "PATH"
 	}
+	if b, ok := e.(*ast.BinaryExpr); ok && b.Op == token.ADD {
+		// a deterministic temp name: s.path + ".tmp"
+		if _, lit := b.Y.(*ast.BasicLit); lit && w.sym(b.X) == "PATH" {
+			return "TMPNAME"
+		}
+	}
 	if c, ok := e.(*ast.CallExpr); ok {
 		f := exprText(c.Fun)
 		if f == "filepath.Dir" && len(c.Args) == 1 && w.sym(c.Args[0]) == "PATH" {
@@ -93,6 +99,19 @@ func (w *c19walk) call(c *ast.CallExpr, lhs []ast.Expr) error {
 		}
 		w.emit(".createTemp", c)
 		bind(0, "TMPFD")
+		return nil
+	case f == "os.OpenFile":
+		// a temp file under a DETERMINISTIC name (no os.CreateTemp)
+		if len(c.Args) == 3 && w.sym(c.Args[0]) == "TMPNAME" {
+			flags := exprText(c.Args[1])
+			if strings.Contains(flags, "O_EXCL") || !strings.Contains(flags, "O_CREATE") {
+				return fmt.Errorf("os.OpenFile(%s): unsupported flags for the temp file", flags)
+			}
+			w.emit(fmt.Sprintf(".openFixed %v", strings.Contains(flags, "O_TRUNC")), c)
+			bind(0, "TMPFD")
+			return nil
+		}
+		w.emit(".other "+leanStr(exprText(c)), c)
 		return nil
 	case f == "os.Rename":
 		if len(c.Args) != 2 {
